@@ -60,6 +60,12 @@ pub struct VerifDump {
     pub clauses: Vec<VerifClause>,
     /// The current trail: variable, assigned value and decision level.
     pub trail: Vec<(VerifVar, bool, u32)>,
+    /// Per clause (same indices as `clauses`): the two literals the clause
+    /// watches, `None` for clauses without watches (assertions).
+    pub watched: Vec<Option<[(VerifVar, bool); 2]>>,
+    /// Every watch list: the watched literal and the indices of the clauses
+    /// in its list, in list order.
+    pub watch_lists: Vec<((VerifVar, bool), Vec<usize>)>,
 }
 
 impl<D: DependencyProvider, RT: AsyncRuntime> Solver<D, RT> {
@@ -126,6 +132,27 @@ impl<D: DependencyProvider, RT: AsyncRuntime> Solver<D, RT> {
                 )
             })
             .collect();
-        VerifDump { clauses, trail }
+        let lit = |l: super::clause::Literal| (self.verif_var(l.variable()), l.satisfying_value());
+        let watched = state
+            .clauses
+            .watched_literals
+            .iter()
+            .map(|w| {
+                w.as_ref()
+                    .map(|w| [lit(w.watched_literals[0]), lit(w.watched_literals[1])])
+            })
+            .collect();
+        let watch_lists = state
+            .watches
+            .verif_lists(&state.clauses.watched_literals)
+            .into_iter()
+            .map(|(l, list)| (lit(l), list.into_iter().map(|c| c.to_usize()).collect()))
+            .collect();
+        VerifDump {
+            clauses,
+            trail,
+            watched,
+            watch_lists,
+        }
     }
 }
